@@ -64,8 +64,8 @@ def rand_params(rng: random.Random, cls: str, small: bool = True) -> dict:
         return {"lambda_": rng.choice([0.0, 0.05, 0.3, 1.0, rng.uniform(0, 2)]), "alpha": rng.choice([0.0, 0.5, 0.9, 0.99, 1.0]),
                 "min_num_instances": mn}
     if cls == "BOCD":
-        return {"prior_mean": rng.choice([0.0, 1.0, -2.5]), "prior_var": rng.choice([1.0, 0.5, 4.0]),
-                "data_var": rng.choice([1.0, 0.5, 2.0]), "hazard": rng.choice([0.01, 0.1, 0.3, 0.5, 0.9]),
+        return {"prior_mean": rng.choice([0.0, 1.0, -2.5]), "prior_var": rng.choice([1.0, 0.5, 4.0, 0.02, 1e-3, 50.0]),
+                "data_var": rng.choice([1.0, 0.5, 2.0, 0.01, 1e-4, 30.0]), "hazard": rng.choice([0.01, 0.1, 0.3, 0.5, 0.9]),
                 "min_num_instances": mn}
     raise KeyError(cls)
 
@@ -111,7 +111,8 @@ def unit_stream(rng: random.Random, n: int) -> list[float]:
 
 
 def real_stream(rng: random.Random, n: int, nonneg: bool = False) -> list[float]:
-    kind = rng.choice(["gauss", "shift", "shift", "uniform", "integer", "tied", "scaled"])
+    kind = rng.choice(["gauss", "shift", "shift", "uniform", "integer", "tied", "scaled", "huge"])
+    big = rng.choice([1e7, 1e9, 1e12])
     mu0, mu1 = rng.choice([0.0, 1.0, 5.0]), rng.choice([0.5, 2.0, 4.0, 9.0])
     sd = rng.choice([0.1, 0.5, 1.0, 2.0])
     cut = rng.randint(1, max(1, n - 1))
@@ -127,6 +128,8 @@ def real_stream(rng: random.Random, n: int, nonneg: bool = False) -> list[float]
             v = float(rng.randint(0, 3) if t < cut else rng.randint(2, 6))
         elif kind == "tied":
             v = rng.choice([0.0, 0.5, 1.0, 1.0, 2.0])
+        elif kind == "huge":       # counters, byte counts, nanosecond timestamps: magnitudes far beyond 1e4
+            v = rng.gauss(mu0 if t < cut else mu1, sd) * big
         else:
             v = rng.gauss(mu0 if t < cut else mu1, sd) * 1e3
         out.append(abs(v) if nonneg else v)
